@@ -93,7 +93,12 @@ func AddStandardFilters(fd FilterDictionary) { //nolint: gocyclo
 	fd.AddFilter("floor", func(a float64) int {
 		return int(math.Floor(a))
 	})
-	fd.AddFilter("modulo", math.Mod)
+	fd.AddFilter("modulo", func(a, b float64) (float64, error) {
+		if b == 0 {
+			return 0, errDivisionByZero
+		}
+		return math.Mod(a, b), nil
+	})
 	fd.AddFilter("minus", func(a, b float64) float64 {
 		return a - b
 	})
